@@ -29,7 +29,7 @@ class Setup:
     pass
 
 
-def make_io(S, dim, N, tag, with_fields=True, fields=None, grids=("g1", "g2"), params_tag=None):
+def make_io(S, dim, N, tag, with_fields=True, fields=None, grids=("g1", "g2"), params_tag=None, define_grid=True):
     """an IO object with symbolic arrays registered: Eulerian scalar `es`, vector `ev`; Lagrangian grid g1 with scalar `ls`
     and vector `lv`; grid g2 registered without fields"""
     I = S.I
@@ -44,7 +44,8 @@ def make_io(S, dim, N, tag, with_fields=True, fields=None, grids=("g1", "g2"), p
     su.origin = sym_array(S, "origin_%s" % pt, (dim,))
     su.dx = sym_array(S, "dx_%s" % pt, (dim,))
     su.grid_size = gs
-    I.call(I.get_attr(io, "define_eulerian_grid", None, mod), [], dict(origin=su.origin, dx=su.dx, grid_size=gs), None, mod)
+    if define_grid:
+        I.call(I.get_attr(io, "define_eulerian_grid", None, mod), [], dict(origin=su.origin, dx=su.dx, grid_size=gs), None, mod)
     grid_shape = S.grid_shape(dim)
     want = fields if fields is not None else ("es", "ev", "ls", "lv")
     su.arrays = {}
@@ -230,6 +231,18 @@ def rejection(S, rep, dim):
         save(S, part, fname, sym("t"))
         full = make_io(S, dim, N, "full")
         expect_raise(S, rep, "%s: lacks registered field %s" % (base, missing), lambda: load(S, full, fname), "C17.d|%s|missing-%s" % (base, missing))
+    # a whole section missing: a file written by an IO that holds bodies only (a rod / forcing-grid file handed to the flow
+    # reader), and a file written by an IO that holds flow fields only
+    part = make_io(S, dim, N, "part", fields=("ls", "lv"), define_grid=False)
+    save(S, part, "rej_%d_noeul.h5" % dim, sym("t"))
+    full = make_io(S, dim, N, "full")
+    expect_raise(S, rep, "%s: lacks every registered Eulerian field (no Eulerian section)" % base, lambda: load(S, full, "rej_%d_noeul.h5" % dim),
+                 "C17.d|%s|missing-eulerian-section" % base)
+    part = make_io(S, dim, N, "part", grids=(), fields=("es", "ev"))
+    save(S, part, "rej_%d_nolag.h5" % dim, sym("t"))
+    full = make_io(S, dim, N, "full")
+    expect_raise(S, rep, "%s: lacks every registered Lagrangian grid (no Lagrangian section)" % base, lambda: load(S, full, "rej_%d_nolag.h5" % dim),
+                 "C17.d|%s|missing-lagrangian-section" % base)
     # missing grid that has fields
     part = make_io(S, dim, N, "part", grids=("g2",), fields=("es", "ev"))
     save(S, part, "rej_%d_g1.h5" % dim, sym("t"))
